@@ -66,6 +66,10 @@ def gen_case(r, tier, sizes):
     byte = r.choice(b"xyz0")
     body_tok = ("bodyrep=%02x*%d" % (byte, n)) if n > 64 or r.random() < 0.5 else "body=" + hx(rstr(r, bytes(range(256)), n))
     line = "PRINT entry=%s code=%d reason=%s nodate=%d hdr=%s %s pieces=%s" % (entry, code, hx(reason), 1 if nodate else 0, ";".join(ops) or "-", body_tok, pieces)
+    # messages written earlier on the same thread to a peer that went away after k bytes: nothing of them may show up here
+    if r.random() < 0.3:
+        line += " pre=" + ",".join("%s:%d" % (r.choice(["empty", "empty", "bytes", "reader", "request", "cont"]), r.choice([0, 1, 9, 17, 30, 45, 60, 200, 100000]))
+                                   for _ in range(r.choice([1, 1, 2])))
     if entry == "request":
         line += " method=%s uri=%s" % (r.choice(["GET", "POST", "PURGE"]), hx(r.choice([b"/", b"/api/v1?x=1", b"*"])))
     return line
